@@ -1,7 +1,11 @@
 import YaegiVerif.Common.Sexp
 import YaegiVerif.Model.Cfg
+import YaegiVerif.Model.CfgSlots
 /- Line-protocol front end for C01 (glue).
-   run FUEL (funs BODY…) MAIN   → y=<normal|panic|fuel>:<v1,v2,…> g=<normal|panic|fuel>:<v1,v2,…> n=<instructions>
+   run FUEL (funs BODY…) MAIN   → y=<normal|panic|fuel>:<v1,v2,…> g=<normal|panic|fuel>:<v1,v2,…>
+                                    z=<normal|panic|fuel|stuck>:<v1,v2,…> n=<instructions> n2=<slot-level closures> nv=<variable slots>
+     y = level-1 machine (Model/Cfg.lean), g = Go big-step semantics (Spec/GoCore.lean),
+     z = slot-level machine (Model/CfgSlots.lean) over `expand nv (compileProg …)`, nv = 1 + largest variable index
    EXPR  = (lit n) | (var i) | (bin add|sub|mul|and|or|xor|quo|rem a b) | (neg a) | (cpl a)
    BEXPR = (cmp eq|ne|lt|le|gt|ge a b) | (not a) | (land a b) | (lor a b)
    STMT  = skip | brk | cont | (brkL n) | (contL n)   -- break L / continue L, L = n-th enclosing loop, 0 = innermost
@@ -91,7 +95,16 @@ def handle (args : List Sexp) : String :=
          | some (.panic, s) => "panic:" ++ showOut s.out
          | some (_, s) => "normal:" ++ showOut s.out
          | none => "fuel:"
-       s!"y={y} g={g} n={code.length}"
+       -- level 2: variables are the slots < nv; every level-1 node expands to at most 16 closures here
+       let nv := codeBound code
+       if !(code.all (Instr.varsLt nv)) then "bad-op" else
+       let code2 := expand nv code
+       let z := match runFuel2 code2 (f * 16) (.run 0 (fun _ => 0) [] []) with
+         | some (.run _ _ out _) => "stuck:" ++ showOut out
+         | some (.done out) => "normal:" ++ showOut out
+         | some (.panicked out) => "panic:" ++ showOut out
+         | none => "fuel:"
+       s!"y={y} g={g} z={z} n={code.length} n2={code2.length} nv={nv}"
      | _, _, _ => "bad-op")
   | _ => "bad-op"
 
